@@ -1346,3 +1346,60 @@ func TestD37_DijkstraDistanceExactlyMaxInt(t *testing.T) {
 		}
 	}
 }
+
+// D39 (C15): ValueSet.Args() / Value.Arg() rendered a value of an interface
+// type with Named(name, v.Interface()), i.e. under its dynamic type. A named
+// value only satisfies a named requirement of exactly its type, so the values
+// loaded from one function's result could not be handed to a function that
+// takes the very same named, interface-typed value.
+type d39Out struct {
+	argmapper.Struct
+	R d30Reader
+}
+
+func TestD39_ArgsKeepInterfaceType(t *testing.T) {
+	producer := argmapper.MustFunc(argmapper.NewFunc(func() d39Out { return d39Out{R: &d30Buf{"x"}} }))
+	consumer := argmapper.MustFunc(argmapper.NewFunc(func(in d30In) string { return in.R.Read() }))
+	out := producer.Output()
+	if err := out.FromResult(producer.Call()); err != nil {
+		t.Fatal(err)
+	}
+	res, p := call(consumer, out.Args()...)
+	if p != nil {
+		t.Fatalf("panic: %v", p)
+	}
+	if res.Err() != nil {
+		t.Fatalf("a function taking the same named interface value, called with Args(): %v", res.Err())
+	}
+	if res.Out(0).(string) != "x" {
+		t.Fatalf("got %v", res.Out(0))
+	}
+}
+
+// D40 (C08): the wrapper of a redefined function passed its type-only inputs
+// on with Typed(field.Interface()), i.e. under their dynamic type. An input
+// declared with an interface type I and filled with a D (which implements I)
+// became a second type-only D and replaced the D that had been given to
+// Redefine.
+type d40I interface{ Get() string }
+type d40D struct{ S string }
+
+func (d d40D) Get() string { return d.S }
+
+func TestD40_RedefinedFunctionKeepsTheArgumentGivenToRedefine(t *testing.T) {
+	f := argmapper.MustFunc(argmapper.NewFunc(func(i d40I, d d40D) string { return "i=" + i.Get() + " d=" + d.S }))
+	rf, err := f.Redefine(argmapper.Typed(d40D{S: "given"}))
+	if err != nil {
+		t.Fatal(err)
+	}
+	conv := func() d40I { return d40D{S: "input"} }
+	for n := 0; n < 30; n++ {
+		res, p := call(rf, argmapper.Converter(conv))
+		if p != nil || res.Err() != nil {
+			t.Fatalf("%v %v", p, res.Err())
+		}
+		if got := res.Out(0).(string); got != "i=input d=given" && got != "i=given d=given" {
+			t.Fatalf("got %q: the argument given to Redefine was replaced by the interface input", got)
+		}
+	}
+}
